@@ -157,6 +157,11 @@ def vd_fpack(c, a):
     return {"ret": 0 if ok else FAIL, "packed": pv}
 
 
+@op("VData", "SetIl")
+def vd_setil(c, a):
+    return {"ret": c.L.VSsetinterlace(c.v["vs"], a["il"])}
+
+
 @op("VData", "Bump")
 def vd_bump(c, a):
     c.v["bump"] += 1
